@@ -705,7 +705,7 @@ pub fn replay(report: &Report, case: &Value) {
     }
 }
 
-const SYS_FILTER: [&str; 6] = ["start", "fs.*", "auth.retry_sleep", "auth.serve", "auth.spawned", "@marks"];
+const SYS_FILTER: [&str; 7] = ["start", "fs.*", "auth.retry_sleep", "auth.serve", "auth.spawned", "@marks", "@stalls"];
 
 fn shim_env() -> Vec<(String, String)> {
     vec![
